@@ -99,6 +99,12 @@ class OldView:
     def __getattr__(self, attr):
         if attr in self._snap:
             return self._snap[attr]
+        entry = self._obj.__dict__.get("_entry", {})
+        if attr not in entry and attr not in self._obj._fields and attr not in self._obj._written:
+            getattr(self._obj, attr)  # first touch: materialise the input field (and its entry snapshot)
+            entry = self._obj.__dict__.get("_entry", {})
+        if attr in entry:
+            return entry[attr]
         if attr not in self._obj._written:
             return getattr(self._obj, attr)  # never assigned: still the entry value
         raise AttributeError(f"old value of {attr} was not captured (mention it in a requires clause)")
@@ -169,6 +175,7 @@ class OMap:
         self.name = name
         self.val_type = val_type
         self.lookups = []  # [(key, result)] in program order, for specifications
+        self.tests = []  # [(key, Bool)] membership tests, so that d[k] after `k in d` does not raise
 
 
 class SFun:
